@@ -16,23 +16,47 @@ open MantraDex
 /-- each fee is the configured share of the amount, rounded down -/
 theorem fee_is_floor_share {share amount fee : Nat} (h : feeCompute share amount = .ok fee) :
     fee = amount * share / ONE18 := by
-  sorry
+  unfold feeCompute at h
+  simp only [bind_ok, fit_ok, decMul_ok, pure_ok] at h
+  obtain ⟨_, ⟨_, rfl⟩, _, ⟨_, rfl⟩, rfl⟩ := h
+  unfold decFloor
+  rw [mul_mul_div_cancel _ _ _ ONE18_pos]
 
 /-- … and therefore never more than the exact share -/
 theorem fee_never_more {share amount fee : Nat} (h : feeCompute share amount = .ok fee) :
     fee * ONE18 ≤ amount * share := by
-  sorry
+  rw [fee_is_floor_share h]
+  exact Nat.div_mul_le_self _ _
 
 /-- sum of the floored extra-fee shares -/
 def extraSum (extra : List Nat) (gross : Nat) : Nat :=
   (extra.map fun e => gross * e / ONE18).foldl (· + ·) 0
+
+theorem extra_foldlM_ok {gross : Nat} (extra : List Nat) (acc e : Nat)
+    (h : extra.foldlM (fun acc sh => do
+      let x ← feeCompute sh gross
+      ckAdd U256_MAX acc x) acc = .ok e) :
+    e = (extra.map fun e => gross * e / ONE18).foldl (· + ·) acc := by
+  induction extra generalizing acc with
+  | nil =>
+    simp only [List.foldlM_nil, pure_ok] at h
+    subst h; rfl
+  | cons sh rest ih =>
+    simp only [List.foldlM_cons, bind_ok, ckAdd_ok] at h
+    obtain ⟨a, ⟨x, hx, _, rfl⟩, h⟩ := h
+    rw [fee_is_floor_share hx] at h
+    simpa using ih _ h
 
 /-- `compute_fees`: swap / protocol / burn / extras are each ⌊gross·share⌋ -/
 theorem computeFees_ok {f : PoolFee} {gross : Nat} {fc : FeesComputation}
     (h : computeFees f gross = .ok fc) :
     fc.swap = gross * f.swap / ONE18 ∧ fc.protocol = gross * f.protocol / ONE18 ∧
     fc.burn = gross * f.burn / ONE18 ∧ fc.extra = extraSum f.extra gross := by
-  sorry
+  unfold computeFees at h
+  simp only [bind_ok, pure_ok, map_ok] at h
+  obtain ⟨s, hs, p, hp, b, hb, e, he, rfl⟩ := h
+  exact ⟨fee_is_floor_share hs, fee_is_floor_share hp, fee_is_floor_share hb,
+    extra_foldlM_ok _ _ _ he⟩
 
 /-- `get_swap_computation`: the receiver gets the gross output minus all fees; the fee amounts are
     passed through unchanged -/
@@ -40,7 +64,57 @@ theorem net_is_gross_minus_fees {gross slip : Nat} {fc : FeesComputation} {c : S
     (h : getSwapComputation gross slip fc = .ok c) :
     c.ret + c.swapFee + c.protocolFee + c.burnFee + c.extraFees = gross ∧
     c.swapFee = fc.swap ∧ c.protocolFee = fc.protocol ∧ c.burnFee = fc.burn ∧ c.extraFees = fc.extra := by
-  sorry
+  unfold getSwapComputation at h
+  simp only [bind_ok, pure_ok, map_ok, ckSub_ok, ckAdd_ok, fit_ok] at h
+  obtain ⟨r1, ⟨h1, rfl⟩, r2, ⟨h2, rfl⟩, r3, ⟨h3, rfl⟩, r4, ⟨h4, rfl⟩, s1, ⟨_, rfl⟩, s2, ⟨_, rfl⟩,
+    s3, ⟨_, rfl⟩, s4, ⟨_, rfl⟩, r, ⟨_, rfl⟩, s, ⟨_, rfl⟩, a, ⟨_, rfl⟩, b, ⟨_, rfl⟩, c', ⟨_, rfl⟩,
+    d, ⟨_, rfl⟩, rfl⟩ := h
+  refine ⟨?_, rfl, rfl, rfl, rfl⟩
+  simp only
+  omega
+
+theorem split_of_fees {f : PoolFee} {gross slip : Nat} {fc : FeesComputation} {c : SwapComputation}
+    (hf : computeFees f gross = .ok fc) (h : getSwapComputation gross slip fc = .ok c) :
+    ∃ gross, c.ret + c.swapFee + c.protocolFee + c.burnFee + c.extraFees = gross ∧
+      c.swapFee = gross * f.swap / ONE18 ∧ c.protocolFee = gross * f.protocol / ONE18 ∧
+      c.burnFee = gross * f.burn / ONE18 ∧ c.extraFees = extraSum f.extra gross := by
+  obtain ⟨h0, h1, h2, h3, h4⟩ := net_is_gross_minus_fees h
+  obtain ⟨g1, g2, g3, g4⟩ := computeFees_ok hf
+  exact ⟨gross, h0, h1.trans g1, h2.trans g2, h3.trans g3, h4.trans g4⟩
+
+theorem computeSwapCP_split {p : PoolInfo} {x y o : Nat} {c : SwapComputation}
+    (h : computeSwapCP p x y o = .ok c) :
+    ∃ gross, c.ret + c.swapFee + c.protocolFee + c.burnFee + c.extraFees = gross ∧
+      c.swapFee = gross * p.fees.swap / ONE18 ∧ c.protocolFee = gross * p.fees.protocol / ONE18 ∧
+      c.burnFee = gross * p.fees.burn / ONE18 ∧ c.extraFees = extraSum p.fees.extra gross := by
+  unfold computeSwapCP at h
+  simp only [bind_ok] at h
+  obtain ⟨_, _, _, _, _, _, _, _, _, _, _, _, _, _, fc, hf, h⟩ := h
+  exact split_of_fees hf h
+
+theorem computeSwapStable_split {p : PoolInfo} {amp : Nat} {oc ac : Coin} {od ad o : Nat}
+    {c : SwapComputation} (h : computeSwapStable p amp oc ac od ad o = .ok c) :
+    ∃ gross, c.ret + c.swapFee + c.protocolFee + c.burnFee + c.extraFees = gross ∧
+      c.swapFee = gross * p.fees.swap / ONE18 ∧ c.protocolFee = gross * p.fees.protocol / ONE18 ∧
+      c.burnFee = gross * p.fees.burn / ONE18 ∧ c.extraFees = extraSum p.fees.extra gross := by
+  unfold computeSwapStable at h
+  simp only [bind_ok] at h
+  obtain ⟨_, _, _, _, h⟩ := h
+  split at h
+  next =>
+    simp only [bind_ok, pure_ok] at h
+    obtain ⟨_, _, _, _, h⟩ := h
+    split at h
+    next =>
+      simp only [bind_ok, pure_ok] at h
+      obtain ⟨_, _, _, _, _, _, _, _, _, _, _, _, _, _, _, _, _, _, _, _, fc, hf, h⟩ := h
+      exact split_of_fees hf h
+    next =>
+      simp only [bind_ok, pure_ok] at h
+      obtain ⟨_, _, _, _, _, _, _, _, _, _, _, _, _, _, _, _, fc, hf, h⟩ := h
+      exact split_of_fees hf h
+  next =>
+    simp only [bind_ok, reduceCtorEq, false_and, exists_false] at h
 
 /-- every swap computation (both pool types) splits one gross output into net + floor-share fees -/
 theorem computeSwap_split {p : PoolInfo} {offer : Coin} {ask : Denom} {c : SwapComputation}
@@ -48,7 +122,71 @@ theorem computeSwap_split {p : PoolInfo} {offer : Coin} {ask : Denom} {c : SwapC
     ∃ gross, c.ret + c.swapFee + c.protocolFee + c.burnFee + c.extraFees = gross ∧
       c.swapFee = gross * p.fees.swap / ONE18 ∧ c.protocolFee = gross * p.fees.protocol / ONE18 ∧
       c.burnFee = gross * p.fees.burn / ONE18 ∧ c.extraFees = extraSum p.fees.extra gross := by
-  sorry
+  unfold computeSwap at h
+  simp only [bind_ok] at h
+  obtain ⟨⟨oc, ac, oi, ai, od, ad⟩, _, h⟩ := h
+  simp only at h
+  split at h
+  · exact computeSwapCP_split h
+  · exact computeSwapStable_split h
+
+theorem findIdx_some {α : Type} {p : α → Bool} {xs : List α} {i : Nat}
+    (h : findIdx p xs = some i) : ∃ x, xs[i]? = some x ∧ p x = true := by
+  induction xs generalizing i with
+  | nil => simp [findIdx] at h
+  | cons a rest ih =>
+    unfold findIdx at h
+    split at h
+    next hp =>
+      cases h
+      exact ⟨a, rfl, hp⟩
+    next =>
+      cases hr : findIdx p rest with
+      | none => simp [hr] at h
+      | some j =>
+        simp only [hr, Option.map_some, Option.some.injEq] at h
+        subst h
+        obtain ⟨x, hx, hpx⟩ := ih hr
+        exact ⟨x, by simpa using hx, hpx⟩
+
+theorem getD?_ok {α : Type} {xs : List α} {i : Nat} {x : α} :
+    getD? xs i = .ok x ↔ xs[i]? = some x := by
+  unfold getD?
+  split
+  next y hy => simp [hy]
+  next hy => simp [hy]
+
+theorem getElem?_setAmount (cs : List Coin) (i a j : Nat) :
+    (setAmount cs i a)[j]? = cs[j]?.map fun c => if j == i then { c with amount := a } else c := by
+  unfold setAmount
+  simp only [List.getElem?_map, List.getElem?_zipIdx, Option.map_map]
+  cases cs[j]? <;> simp
+
+theorem getAssetIndexes_ok {p : PoolInfo} {od ad : String} {oc ac : Coin} {oi ai d1 d2 : Nat}
+    (h : getAssetIndexes p od ad = .ok (oc, ac, oi, ai, d1, d2)) :
+    findIdx (fun k : Coin => k.denom == od) p.assets = some oi ∧
+    findIdx (fun k : Coin => k.denom == ad) p.assets = some ai ∧ oi ≠ ai ∧
+    p.assets[oi]? = some oc ∧ p.assets[ai]? = some ac := by
+  unfold getAssetIndexes at h
+  cases hi : findIdx (fun c : Coin => c.denom == od) p.assets with
+  | none =>
+    simp only [hi, bind_ok, reduceCtorEq, false_and, exists_false] at h
+  | some i =>
+    cases hj : findIdx (fun c : Coin => c.denom == ad) p.assets with
+    | none =>
+      simp only [hi, hj, bind_ok, pure_ok, reduceCtorEq, false_and, exists_false, and_false] at h
+    | some j =>
+      simp only [hi, hj, bind_ok, pure_ok] at h
+      obtain ⟨_, rfl, _, rfl, h⟩ := h
+      split at h
+      next => simp at h
+      next hne =>
+        simp only [bind_ok, pure_ok, map_ok, getD?_ok] at h
+        obtain ⟨oc', hoc, ac', hac, _, _, _, _, h⟩ := h
+        simp only [Prod.mk.injEq] at h
+        obtain ⟨rfl, rfl, rfl, rfl, _, _⟩ := h
+        refine ⟨rfl, rfl, ?_, hoc, hac⟩
+        simpa using hne
 
 /-- reserves after a swap: offer index gains the offer, ask index loses what leaves the contract -/
 def assetsAfterSwap (assets : List Coin) (oi ai x y offerAmt : Nat) (c : SwapComputation) : List Coin :=
@@ -70,7 +208,38 @@ theorem performSwap_ok {s s' : PmState} {offer : Coin} {ask : Denom} {pid : Stri
       s' = s.savePool r.pool ∧
       r.ret = ⟨ask, c.ret⟩ ∧ r.protocolFee = ⟨ask, c.protocolFee⟩ ∧ r.burnFee = ⟨ask, c.burnFee⟩ ∧
       r.swapFee = ⟨ask, c.swapFee⟩ ∧ r.extraFees = ⟨ask, c.extraFees⟩ := by
-  sorry
+  unfold performSwap at h
+  simp only [bind_ok] at h
+  obtain ⟨pool, hpool, ⟨oc0, ac0, oi, ai, d1, d2⟩, hidx, h⟩ := h
+  simp only [bind_ok, pure_ok, map_ok, ckAdd_ok, ckSub_ok, getD?_ok] at h
+  obtain ⟨c, hc, _, _, oc, hoc, _, ⟨_, rfl⟩, _, ⟨_, rfl⟩, ac, hac, _, ⟨h1, rfl⟩, _, ⟨h2, rfl⟩, h⟩ := h
+  simp only [Prod.mk.injEq] at h
+  obtain ⟨rfl, rfl⟩ := h
+  obtain ⟨hfo, hfa, hne, hoc0, hac0⟩ := getAssetIndexes_ok hidx
+  obtain ⟨oc', hoc', hpo⟩ := findIdx_some hfo
+  obtain ⟨ac', hac', hpa⟩ := findIdx_some hfa
+  rw [hoc] at hoc'; cases hoc'
+  have hne' : (ai == oi) = false := by simpa using fun e => hne e.symm
+  rw [getElem?_setAmount, hac', hne'] at hac
+  simp only [Option.map_some, Option.some.injEq, Bool.false_eq_true, if_false] at hac
+  subst hac
+  have hod : oc.denom = offer.denom := by simpa using hpo
+  have had : ac'.denom = ask := by simpa using hpa
+  refine ⟨pool, c, oi, ai, oc.amount, ac'.amount, hpool, hc, hfo, hfa, hne, ?_, ?_, ?_, ?_, rfl, rfl, rfl,
+    rfl, rfl, rfl⟩
+  · rw [hoc, ← hod]
+  · rw [hac', ← had]
+  · omega
+  · simp only [assetsAfterSwap]
+
+theorem oneCoin_ok {funds : List Coin} {c : Coin} (h : oneCoin funds = .ok c) : funds = [c] := by
+  unfold oneCoin at h
+  split at h
+  next c' =>
+    split at h
+    · simp at h
+    · cases h; rfl
+  next => simp at h
 
 /-- the messages of a direct swap: deliver the net return to the chosen receiver, burn the burn
     fee, send the protocol fee to the fee collector — each only when non-zero, nothing else, and no
@@ -84,7 +253,49 @@ theorem swapHandler_messages {s s' : PmState} {env : PmEnv} {sender : Addr} {fun
          (if r.burnFee.amount ≠ 0 then [Msg.bankBurn [r.burnFee]] else []) ++
          (if r.protocolFee.amount ≠ 0 then [Msg.bankSend s.config.feeCollector [r.protocolFee]] else [])).map
           (fun m => ({ msg := m } : SubMsg)) := by
-  sorry
+  unfold swapHandler at h
+  simp only [bind_ok] at h
+  obtain ⟨pool, hpool, h⟩ := h
+  split at h
+  · simp only [bind_ok, reduceCtorEq, false_and, exists_false] at h
+  · simp only [bind_ok] at h
+    obtain ⟨offer, hoffer, h⟩ := h
+    split at h
+    · simp only [bind_ok, reduceCtorEq, false_and, exists_false] at h
+    · split at h
+      · simp only [bind_ok, reduceCtorEq, false_and, exists_false] at h
+      · simp only [bind_ok, pure_ok, map_ok] at h
+        obtain ⟨⟨s1, r⟩, hps, h⟩ := h
+        simp only [Prod.mk.injEq] at h
+        obtain ⟨rfl, rfl⟩ := h
+        exact ⟨offer, r, oneCoin_ok hoffer, hps, rfl⟩
+
+theorem routeHops_cons {s s' : PmState} {ms : Option Nat} {op : SwapOp} {ops : List SwapOp}
+    {prev out : Coin} {fees fees' : List Msg}
+    (h : routeHops s ms (op :: ops) prev fees = .ok (s', out, fees')) :
+    ∃ s1 r, performSwap s prev op.tokenOut op.poolId none ms = .ok (s1, r) ∧
+      routeHops s1 ms ops r.ret
+        (fees ++ (if r.burnFee.amount ≠ 0 then [Msg.bankBurn [r.burnFee]] else []) ++
+          (if r.protocolFee.amount ≠ 0 then [Msg.bankSend s.config.feeCollector [r.protocolFee]]
+           else [])) = .ok (s', out, fees') := by
+  rw [routeHops] at h
+  simp only [bind_ok] at h
+  obtain ⟨pool, _, h⟩ := h
+  split at h
+  · simp only [bind_ok, reduceCtorEq, false_and, exists_false] at h
+  · simp only [bind_ok] at h
+    obtain ⟨⟨s1, r⟩, hps, h⟩ := h
+    exact ⟨s1, r, hps, h⟩
+
+theorem savePool_config (s : PmState) (p : PoolInfo) : (s.savePool p).config = s.config := by
+  unfold PmState.savePool
+  split <;> rfl
+
+theorem performSwap_config {s s' : PmState} {offer : Coin} {ask : Denom} {pid : String}
+    {b ms : Option Nat} {r : SwapResult} (h : performSwap s offer ask pid b ms = .ok (s', r)) :
+    s'.config = s.config := by
+  obtain ⟨_, _, _, _, _, _, _, _, _, _, _, _, _, _, _, hs, _⟩ := performSwap_ok h
+  rw [hs, savePool_config]
 
 /-- in a routed swap each hop consumes exactly the previous hop's output -/
 theorem routeHops_chain {s s' : PmState} {ms : Option Nat} {op : SwapOp} {ops : List SwapOp}
@@ -92,7 +303,8 @@ theorem routeHops_chain {s s' : PmState} {ms : Option Nat} {op : SwapOp} {ops : 
     (h : routeHops s ms (op :: ops) prev fees = .ok (s', out, fees')) :
     ∃ s1 r, performSwap s prev op.tokenOut op.poolId none ms = .ok (s1, r) ∧
       ∃ fees1, routeHops s1 ms ops r.ret fees1 = .ok (s', out, fees') := by
-  sorry
+  obtain ⟨s1, r, hps, h⟩ := routeHops_cons h
+  exact ⟨s1, r, hps, _, h⟩
 
 /-- the fee messages of a route only ever burn or pay the fee collector -/
 theorem routeHops_fee_msgs {s s' : PmState} {ms : Option Nat} {ops : List SwapOp}
@@ -102,7 +314,32 @@ theorem routeHops_fee_msgs {s s' : PmState} {ms : Option Nat} {ops : List SwapOp
     (h : routeHops s ms ops prev fees = .ok (s', out, fees')) :
     s'.config = s.config ∧
     ∀ m ∈ fees', (∃ cs, m = Msg.bankBurn cs) ∨ (∃ cs, m = Msg.bankSend s.config.feeCollector cs) := by
-  sorry
+  cases hcfg
+  induction ops generalizing s prev fees with
+  | nil =>
+    rw [routeHops] at h
+    simp only [Except.ok.injEq, Prod.mk.injEq] at h
+    obtain ⟨rfl, rfl, rfl⟩ := h
+    exact ⟨rfl, hf⟩
+  | cons op ops ih =>
+    obtain ⟨s1, r, hps, h⟩ := routeHops_cons h
+    have hc := performSwap_config hps
+    have := ih (s := s1) (by
+      rw [hc]
+      intro m hm
+      simp only [List.mem_append] at hm
+      rcases hm with (hm | hm) | hm
+      · exact hf m hm
+      · split at hm
+        · simp only [List.mem_singleton] at hm
+          exact Or.inl ⟨_, hm⟩
+        · simp at hm
+      · split at hm
+        · simp only [List.mem_singleton] at hm
+          exact Or.inr ⟨_, hm⟩
+        · simp at hm) h
+    rw [hc] at this
+    exact this
 
 /-! Non-vacuity -/
 example : feeCompute 3000000000000000 1000000 = .ok 3000 := by decide
